@@ -120,7 +120,7 @@ pub fn body(additive0: bool, additive1: bool, target: &'static str, under_a: boo
     let fails = sym::any_bool();
     let c0 = mk_config(("A", "B"), (0, 1), r0, a0, additive0, fails, order);
     let c1 = mk_config(("C", "D"), (2, 3), r1, a1, additive1, false, !order);
-    let logger = Logger::new_with_err_handler(c0, Box::new(handler));
+    let logger = Logger::new_with_err_handler(c0, Box::new(|e: &anyhow::Error| handler(e)));
     // C02: reported maximum of the initial configuration
     let m0 = if filter_rank(r0) > filter_rank(a0) { filter_rank(r0) } else { filter_rank(a0) };
     assert!(filter_rank(logger.max_log_level()) == m0, "C02: max level is the most verbose configured level");
